@@ -475,6 +475,16 @@ def build(run):
                 else:
                     objs += [C.Product(x_, y_)]
         objs += [as_tensor(A[i, j] + A[j, i], (i, j)), as_tensor(A[j, i] + A[i, j], (i, j)), inner(as_tensor(A[i, 0], (i,)), as_tensor(A[j, 0], (j,)))]
+        # zeros carrying free indices (several distinct ones in one container), and a probe of freshly built literals: un-pickling / re-evaluating one
+        # object must not alter what any OTHER expression is (shared cached literals)
+        k_ = Index(943)
+        objs += [C.Zero((), (i.count(),), (2,)), 0 * u[i], C.ExprList(0 * u[i], 0 * u[j]), C.ExprList(0 * u[j], 0 * u[i], C.Zero()), as_vector([f, 0]),
+                 conditional(lt(f, g), 0 * u[i], u[i]), C.Zero((2, 2), (j.count(), k_.count()), (2, 3)), C.ExprList(C.Zero((2,)), C.Zero((2,), (i.count(),), (3,)))]
+
+        def probe():
+            return [repr(x_) for x_ in (C.Zero(), C.Zero((2,)), C.Zero((2, 2)), as_vector([f, 0]), C.IntValue(0) * f, C.Identity(2), C.IntValue(1), C.FloatValue(0.5),
+                                        MultiIndex((FixedIndex(0),)), MultiIndex(()))]
+        probe0 = probe()
         n = 0
         for o in objs:
             n += 1
@@ -490,7 +500,11 @@ def build(run):
                 return violated(f"eval(repr(x)) failed for {type(o).__name__}: {type(ex).__name__}: {ex}", replay={"repr": repr(o)}, reproduced=True)
             if not (e == o):
                 return violated(f"eval(repr(x)) != x for {type(o).__name__}: {o!r}", replay={"repr": repr(o), "roundtrip": repr(e)}, reproduced=True)
-        return proved("exec", vcs=n, sample=f"{n} representatives: pickle and eval(repr) round trips give equal objects")
+            if probe() != probe0:
+                chg = [(a_, b_) for a_, b_ in zip(probe0, probe()) if a_ != b_][0]
+                return violated(f"the round trip of {o!r:.120} changed an unrelated, freshly built literal: {chg[0]} is now {chg[1]}",
+                                replay={"object": repr(o)[:600], "before": chg[0], "after": chg[1]}, reproduced=True, backend="exec")
+        return proved("exec", vcs=n, sample=f"{n} representatives: pickle and eval(repr) round trips give equal objects and leave cached literals alone")
     run.add("roundtrip/pickle-and-repr", roundtrip, kind="values")
 
     # literals: the printed text of a real / complex literal must denote the same double (shortest round-trip text or more digits)
